@@ -5,6 +5,7 @@ import Driver.Tools
 import Driver.C13
 import Driver.Admission
 import Driver.Timeout
+import Driver.Config
 /-! `vmodel`: the line-protocol driver over the executable Lean model.
     One case per input line (`<stream> <args…>`), one predicted observation per output line. -/
 namespace Driver
@@ -27,6 +28,7 @@ def dispatch (line : String) : String :=
     | "c15w" => c15wOp args
     | "c15l" => c15lOp args
     | "c16" => c16Op args
+    | "c19" => c19Op args
     | "c13end" => c13endOp args
     | "real" => realOp args
     | _ => "bad-op"
